@@ -774,7 +774,9 @@ class DefaultSuite(Suite):
     name = 'default'
     def make(self, r, tid):
         def ftgen(r, i):
-            ty, vals, dflt = pick(r, DEF_TYPES)
+            # under hostile names the user's own `Option` / `String` / `Some(..)` would be the shadowing items
+            pool = [d for d in DEF_TYPES if not HOSTILE[0] or not re.search(r'Option|String', d[0])]
+            ty, vals, dflt = pick(r, pool)
             if r.random() < 0.2:
                 # integer types narrower / other than the literal fallback i32: a bare negative literal must stay a literal
                 ty, vals, dflt = pick(r, [d for d in DEF_TYPES if d[0] in ('i8', 'i16', 'isize', 'i64', 'i128')])
